@@ -106,3 +106,77 @@ func VerifHarness_C19_Polyglot() {
 	}
 	verifAutoMatches(in)
 }
+
+// VerifHarness_C19_NegControl: deliberately wrong claim (auto reports the JPEG loader's
+// outcome even for PNG input); must be reported as violated.
+func VerifHarness_C19_NegControl() {
+	in, _ := pngmeta.VerifBuildPNG(0)
+	_, _, errJ := jpegmeta.Load(rd.New(in))
+	_, _, err := Load(rd.New(in))
+	verifAssert((err == nil) == (errJ == nil), "negative control: auto succeeds iff the JPEG loader does (wrong on purpose)")
+}
+
+// verifC19Sizes: filler lengths of the "large" family (longer than bufio's 4096-byte
+// buffer, than two of them, and - thorough tier - than 64 KiB).
+var verifC19Sizes = 3
+
+func verifBE32Bytes(v int) []byte { return []byte{byte(v >> 24), byte(v >> 16), byte(v >> 8), byte(v)} }
+
+// verifLargeInput builds inputs that are longer than every internal buffer of the
+// loaders and of autometa: a format signature, then ancillary data of L bytes (the last
+// four symbolic), then either nothing (no loader can succeed) or the structure the
+// format's loader needs; optionally cut just behind the 4096-byte boundary.
+func verifLargeInput() []byte {
+	sizes := []int{4090, 5000, 9000, 70000}
+	L := sizes[verifChoice(verifC19Sizes)]
+	fill := make([]byte, L)
+	copy(fill[L-4:], verifBytes(4))
+	var in []byte
+	switch verifChoice(5) {
+	case 0, 1:
+		in = append(in, pngmeta.VerifSig...)
+		if verifChoice(2) == 1 {
+			hdr, _ := pngmeta.VerifBuildPNG(0)
+			in = append([]byte{}, hdr[:8+25]...) // signature + IHDR chunk
+		}
+		in = append(in, verifBE32Bytes(L)...)
+		in = append(in, "tEXt"...)
+		in = append(in, fill...)
+		in = append(in, 0, 0, 0, 0)
+	case 2:
+		in = append(in, 0xff, 0xd8)
+		for off := 0; off < L; off += 60000 {
+			n := L - off
+			if n > 60000 {
+				n = 60000
+			}
+			in = append(in, 0xff, 0xfe, byte((n+2)>>8), byte(n+2))
+			in = append(in, fill[off:off+n]...)
+		}
+		if verifChoice(2) == 1 {
+			full, _ := jpegmeta.VerifBuildJPEG(0)
+			in = append(in, full[2:]...) // the skeleton's segments after its SOI
+		}
+	case 3:
+		in = append(in, "RIFF"...)
+		in = append(in, 0xff, 0xff, 0, 0)
+		in = append(in, "WEBPVP8X"...)
+		in = append(in, 10, 0, 0, 0, 0x20, 0, 0, 0, 9, 0, 0, 4, 0, 0)
+		in = append(in, "JUNK"...)
+		in = append(in, byte(L), byte(L>>8), byte(L>>16), 0)
+		in = append(in, fill...)
+	default:
+		in = append(in, fill...) // no signature at all
+	}
+	if len(in) > 4097 && verifChoice(2) == 1 {
+		in = in[:4097]
+	}
+	return in
+}
+
+// VerifHarness_C19_Large: the auto loader against the specific loaders on inputs that
+// exceed the internal buffer sizes (a failing candidate has consumed more than a
+// buffer's worth before the next one starts).
+func VerifHarness_C19_Large() {
+	verifAutoMatches(verifLargeInput())
+}
